@@ -39,6 +39,7 @@ const (
 	AClose                 // fd_close(last opened fd); acc += errno
 	ACallGRef              // table[5] := (immutable funcref global = ref.func gleaf); acc = table[5](acc)
 	AAtomicAdd             // acc += atomic.rmw.add(cell A, B)   (only when Atomics)
+	AWide                  // (r0,r1) = wide(acc, i64, f32, f64): multi-value, mixed types; acc = low32(r0) + r1
 )
 
 const (
@@ -73,7 +74,7 @@ type Atom struct {
 }
 
 func (a Atom) String() string {
-	n := []string{"store", "storeacc", "loadacc", "gadd", "call", "callimp", "calli", "host", "trap", "grow", "rec", "tableset", "exit", "meminit", "datadrop", "tableinit", "elemdrop", "tailcall", "stdout", "open", "close", "callgref", "atomicadd"}[a.K]
+	n := []string{"store", "storeacc", "loadacc", "gadd", "call", "callimp", "calli", "host", "trap", "grow", "rec", "tableset", "exit", "meminit", "datadrop", "tableinit", "elemdrop", "tailcall", "stdout", "open", "close", "callgref", "atomicadd", "wide"}[a.K]
 	return fmt.Sprintf("%s(%d,%d)", n, a.A, a.B)
 }
 
@@ -128,6 +129,7 @@ type Opts struct {
 	WASI               bool // stdout / path_open / fd_close atoms (no model support)
 	GRef               bool // funcref-global atom
 	Atomics            bool // atomic atoms and traps (needs the threads feature)
+	Wide               bool // the multi-value mixed-type function
 }
 
 // Generate draws a plan from the tape.
@@ -146,7 +148,10 @@ func Generate(t *tape.Tape, o Opts) *Plan {
 		for j := 0; j < na; j++ {
 			val++
 			// weights: store, storeacc, loadacc, gadd, call, callimp, calli, host, trap, grow, rec, tableset, exit, meminit, datadrop, tableinit, elemdrop, tailcall
-			w := []int{4, 3, 2, 3, 4, 0, 0, 0, 0, 0, 0, 0, 0, 0, 0, 0, 0, 0, 0, 0, 0, 0, 0}
+			w := []int{4, 3, 2, 3, 4, 0, 0, 0, 0, 0, 0, 0, 0, 0, 0, 0, 0, 0, 0, 0, 0, 0, 0, 0}
+			if o.Wide {
+				w[AWide] = 2
+			}
 			if o.WASI {
 				w[AStdout], w[AOpen], w[AClose] = 3, 2, 2
 			}
@@ -261,6 +266,7 @@ type Layout struct {
 	Rec0                       uint32
 	Odd                        uint32
 	Gleaf                      uint32
+	Wide                       uint32
 	TypeGuest                  uint32
 }
 
@@ -270,6 +276,7 @@ func (p *Plan) Layout() Layout {
 	l.Rec0 = l.F0 + uint32(len(p.Funcs))
 	l.Odd = l.Rec0 + 2
 	l.Gleaf = l.Odd + 1
+	l.Wide = l.Gleaf + 1
 	return l
 }
 
@@ -379,6 +386,13 @@ func (p *Plan) Encode() []byte {
 				c.LocalGet(1).I32Const(SlotGRef).CallIndirect(tGuest, 0).LocalSet(1)
 			case AAtomicAdd:
 				c.I32Const(8*a.A).I32Const(a.B).Raw(0xFE, 0x1E, 2, 0).LocalGet(1).I32Add().LocalSet(1)
+			case AWide:
+				// wide(acc, i64(acc)*3, f32(acc&0xFF), f64(acc&0xFFFF)) -> (i64, i32); acc = wrap(r0) + r1
+				c.LocalGet(1)
+				c.LocalGet(1).I64ExtendI32S().I64Const(3).I64Mul()
+				c.LocalGet(1).I32Const(0xFF).I32And().F32ConvertI32S()
+				c.LocalGet(1).I32Const(0xFFFF).I32And().F64ConvertI32S()
+				c.Call(l.Wide).LocalSet(1).I32WrapI64().LocalGet(1).I32Add().LocalSet(1)
 			}
 			if tail {
 				break
@@ -432,6 +446,13 @@ func (p *Plan) Encode() []byte {
 	for g := 0; g < NGlobals; g++ {
 		m.Globals = append(m.Globals, wasmb.Global{Type: wasmb.I32, Mut: true, Init: wasmb.ConstI32(int32(1000 * (g + 1)))})
 		m.Exports = append(m.Exports, wasmb.Export{Name: fmt.Sprintf("g%d", g), Kind: wasmb.KindGlobal, Idx: uint32(g)})
+	}
+	// wide(a i32, b i64, c f32, d f64) -> (b + i64(a), a + trunc(c) + trunc(d))
+	{
+		wc := &wasmb.Code{}
+		wc.LocalGet(1).LocalGet(0).I64ExtendI32S().I64Add()
+		wc.LocalGet(0).LocalGet(2).I32TruncF32S().I32Add().LocalGet(3).I32TruncF64S().I32Add()
+		m.AddFunc([]wasmb.ValType{wasmb.I32, wasmb.I64, wasmb.F32, wasmb.F64}, []wasmb.ValType{wasmb.I64, wasmb.I32}, nil, wc.B, "wide")
 	}
 	m.Globals = append(m.Globals, wasmb.Global{Type: wasmb.FuncRef, Mut: false, Init: wasmb.ConstRefFunc(l.Gleaf)})
 	m.Exports = append(m.Exports, wasmb.Export{Name: "mem", Kind: wasmb.KindMemory, Idx: 0})
